@@ -42,7 +42,7 @@ def run_script(lines, name, timeout=3000):
     return out, p
 
 
-def to_events(recs):
+def to_events(recs, hist_tail=None):
     evs = []
     for i, r in enumerate(recs, 1):
         op = r["op"].split()
@@ -65,6 +65,11 @@ def to_events(recs):
         ev["m"] = {"regs": m["regs"], "st": m["st"], "maddr": m["maddr"], "ir": m["ir"], "inr": m["inr"], "outr": m["outr"], "asm": m["asm"],
                    "autorun": m["autorun"], "part": m["part"], "di1": m["di1"], "temp": mv_of_bits(m["temp_bits"]), "ai1": mv_of_bits(m["ai1_bits"]),
                    "ai2": mv_of_bits(m["ai2_bits"]), "dasr": m["dasr"], "ramsum": m["ramsum"], "misr": m["misr"]}
+        if hist_tail is not None:
+            # long sessions: the history is logged as its length and its last entries (the specification compares exactly these)
+            h = ev["ed"].pop("hist")
+            ev["ed"]["hlen"] = len(h)
+            ev["ed"]["htail"] = h[-hist_tail:]
         evs.append(ev)
     return evs
 
